@@ -6,6 +6,7 @@ package vs
 
 import (
 	"fmt"
+	"os"
 	"runtime"
 	"runtime/debug"
 	"sort"
@@ -65,6 +66,19 @@ type Result struct {
 	StateSig      []uint64       // global state hash after every visible step
 	MaxEnabled    int            // max number of simultaneously enabled threads seen
 	DefaultsTaken map[string]int // select sites that took their default branch
+}
+
+// TimerFirstTaken reports whether the execution contains a "timer lands first" deviation: virtual time
+// was advanced while some thread could still run, i.e. that thread was delayed by an arbitrary
+// amount. In such executions "returned at virtual time t" says nothing about how long the call was
+// blocked, so latency oracles must not be applied to them (everything else is judged as usual).
+func (r *Result) TimerFirstTaken() bool {
+	for _, p := range r.Points {
+		if p.Kind == 'T' && p.TimerAlt && p.Taken == p.N-1 {
+			return true
+		}
+	}
+	return false
 }
 
 // ---- scheduler ----------------------------------------------------------------------------------
@@ -158,6 +172,9 @@ type abortSignal struct{}
 
 // Run executes main under the scheduler and returns when the execution has ended and every
 // goroutine it created has exited.
+// traceOn (VS_TRACE=1) prints every scheduling decision to stderr (for reading replays).
+var traceOn = os.Getenv("VS_TRACE") != ""
+
 func Run(cfg Config, main func()) Result {
 	if s != nil {
 		panic("vs.Run: nested execution")
@@ -375,6 +392,17 @@ func (sc *sched) dispatch(me *thread) {
 			continue
 		}
 		next := en[idx]
+		if traceOn {
+			d, site := "", ""
+			if next.op != nil {
+				d, site = next.op.desc, next.op.site
+			}
+			var names []string
+			for _, t := range en {
+				names = append(names, t.name)
+			}
+			fmt.Fprintf(os.Stderr, "vs %8v step %4d point %3d: %-28s %s %s   enabled %v\n", sc.now, sc.steps, len(sc.points), next.name, d, site, names)
+		}
 		sc.sig()
 		if next == me {
 			sc.performOwn(me)
@@ -503,6 +531,9 @@ func (sc *sched) fireNext() {
 	}
 	tm := same[k]
 	tm.dead = true
+	if traceOn {
+		fmt.Fprintf(os.Stderr, "vs %8v step %4d point %3d: timer %q fires at %v\n", sc.now, sc.steps, len(sc.points), tm.label, tm.when)
+	}
 	if tm.when > sc.now {
 		sc.now = tm.when
 	}
